@@ -224,7 +224,7 @@ def cmdLcSeq (a : Args) : String :=
 def cmdFind (a : Args) : String :=
   let g := graphOf a
   let h := graphOf a "b"
-  match findLcOperations (getNat a "fuel") g h (modeOf (get a "mode")) (drawsOf (get a "draws")) with
+  match findLcOperations (getNat a "fuel") g h (modeOf (get a "mode")) (drawsOf (get a "draws")) (get a "fixed" = "1") with
   | .ok l => s!"ok seq={showNats "," l}"
   | .error e => errStr e
 
